@@ -394,6 +394,8 @@ class Abs:
             return list(v)
         if getattr(v, "_abs_native", False):
             return list(v)
+        if v is None or isinstance(v, (bool, int, float)):
+            raise Raised("TypeError(%s object is not iterable)" % type(v).__name__)
         raise Undecided("iteration over %r" % (v,))
 
     def truth(self, v):
@@ -401,13 +403,24 @@ class Abs:
             raise Undecided("truth value of opaque %r" % v)
         if isinstance(v, Obj):
             return True
-        return bool(v)
+        try:
+            return bool(v)
+        except ValueError as ex:           # numpy: the truth value of an array with more than one element is ambiguous
+            raise Raised("ValueError(%s)" % ex)
 
     def compare(self, op, a, b):
+        try:
+            return self._compare(op, a, b)
+        except ValueError as ex:
+            if getattr(a, "_abs_native", False) or getattr(b, "_abs_native", False):
+                raise Raised("ValueError(%s)" % ex)     # e.g. operands could not be broadcast together
+            raise
+
+    def _compare(self, op, a, b):
         if isinstance(op, ast.Is):
             return a is b or ((a is None or isinstance(a, bool)) and type(a) is type(b) and a == b)
         if isinstance(op, ast.IsNot):
-            return not self.compare(ast.Is(), a, b)
+            return not self._compare(ast.Is(), a, b)
         if isinstance(op, ast.In):
             if isinstance(b, dict):
                 return self._key(a) in b
@@ -968,6 +981,8 @@ class Abs:
                 if isinstance(v, (int, float)) and not isinstance(v, bool) or (isinstance(v, Tok) and v.kind == "num"):
                     return True
                 continue
+            if isinstance(name, str) and name in self.env and (self.env[name] is None or isinstance(self.env[name], (int, float, str, list, dict)) or getattr(self.env[name], "_abs_native", False)):
+                raise Raised("TypeError(isinstance() arg 2 must be a type, a tuple of types, or a union)")
             raise Undecided("isinstance against unknown type %s" % name)
         return False
 
